@@ -548,7 +548,7 @@ def map_independence(ctx):
     application id, frame id)-keyed map on every iteration on which both ids are present — a duplicate in one map does
     not keep the frame out of the other.  Path rule on the loop that touches both maps: no header-to-latch path avoids
     the id-keyed map's write site, and none avoids the other map's write site unless it takes a `None` arm of a test on
-    an optional string (the ids)."""
+    an optional value (the ids, or the key built from them)."""
     from rules.common import place_ty, op_local
     from rules import lib_loop
     F, R = ctx.facts, ctx.report
@@ -600,7 +600,7 @@ def map_independence(ctx):
                         dl = op_local(t["d"])
                         for pl in ddefs.get(dl, []) if dl is not None else []:
                             pt = place_ty(F, body, pl)
-                            if pt is not None and F.ty_s(pt).startswith(("std::option::Option<", "core::option::Option<")) and "String" in F.ty_s(pt):
+                            if pt is not None and F.ty_s(pt).startswith(("std::option::Option<", "core::option::Option<")):
                                 none_t = t["otherwise"]
                                 for v, tg in zip(t["vals"], t["tgts"]):
                                     if int(v) == 0:
